@@ -87,6 +87,11 @@ def c09(tier, seed):
                      bounds="all byte strings of length %d" % n,
                      functions=["sta_rs::Message::from_bytes", "sta_rs::Share::from_bytes", "adss::load_bytes"],
                      stubs=dec_stubs, to_case=case_decode("sta_rs::Message::from_bytes", n)))
+    obs.append(K("c09::c09_recover_any_key_length", cap=900, mem=16, mode="panic", must_cover=["rejected"],
+                 claim="adss::recover never panics on a foreign share (arbitrary threshold, point, C, D, tag; no values), whatever the Shamir layer hands back: an error or a key of 0, 8, 15, 16 or 24 bytes (a share without values yields an empty key)",
+                 bounds="one share built through the cfg(kani) hook, 2-byte C and D; Keccak-f = arbitrary function",
+                 stubs=["Sharks::recover -> Err or an arbitrary key of length 0/8/15/16/24", "f1600_any", "Drop impls -> no-op"], functions=["adss::recover", "adss::Commune::verify"],
+                 to_case=lambda o, info: [{"kind": "c09_foreign", "seed": 1}]))
     obs.append(K("c06::c06_interpolate_t2", cap=300, must_cover=["reached"],
                  claim="share recovery's interpolation never panics (no unwrap of a failed inversion) for any two distinct points, the point 0 included, and any values",
                  bounds="t = 2, GF(13) (a panic here is the vanishing of a polynomial expression in the points)", stubs=SF, functions=["interpolate"]))
@@ -288,6 +293,7 @@ def c08(tier, seed):
                      claim="an honestly generated ADSS share encodes as A(4 LE)|len|x(24)|y(24)|len|C|len|D|J(64) and decode(encode(v)) == v",
                      bounds="message/coins lengths per harness name, threshold 1 or 2, all contents", stubs=adss_st,
                      functions=["adss::Commune::share", "adss::Share::to_bytes", "adss::Share::from_bytes"]))
+    obs.append(M("native::c08-decoders", NAT + "synthetic encodings of the documented layout - every boundary field element (0, 1, p-1, p, p+1, 2^128, 2^192-1 ...) at every element position, every truncation, trailing bytes after the tag, a tag one byte short, an ignored tail inside the Shamir chunk, spliced shares, every length prefix set to 0/1/2^32-1/2^32-4/total length - decoded by the real decoders: accept/reject and the re-encoding agree with the independent reference parser", bounds="concrete, ~400 encodings"))
     return {
         "obligations": obs,
         "level": "model_checking",
